@@ -202,7 +202,7 @@ PROPS = {
     },
     'C15': {
         'needs_mir': True,
-        'rules': [rule('G9'), rule('G11'), rule('W2'), rule('G19'), rule('S3')],
+        'rules': [rule('G9'), rule('G11'), rule('W2'), rule('G19'), rule('S3'), rule('G14', keep=['streaming-parser'])],
         'explanation': 'The incomplete entries consist only of combinators that cannot fail (many0, opt) over item parsers that cannot '
                        'succeed on empty input (G9: least-fixed-point nullability over the grammar; 363 repetition sites) and no '
                        'parser raises nom Failure/cut (G11) => never Error::Parse; they are the strict entries with many_till(X, eof) '
@@ -415,7 +415,7 @@ PROPS = {
         'technique': 'finite-state abstract interpretation of the body tokeniser (product with a lexical-context monitor) + error-payload and binding-shape lint on the macro resolver + named-parameter threading',
     },
     'C11': {
-        'rules': [rule('X14'), rule('X7'), rule('X10'), rule('X9'), rule('X13', keep=['expansion-table'])],
+        'rules': [rule('X14'), rule('X7'), rule('X10'), rule('X9'), rule('X13', keep=['expansion-table']), rule('G6', keep=MACRO_LEXERS)],
         'explanation': 'NARROW claim: the structural clauses of "the returned define table is exact". The table is seeded with the '
                        'predefined constants and then every caller-supplied entry unchanged; inside the loop it is written only by '
                        '`define (insert under the macro\'s own name of a Define built from that directive\'s name, formals and text), '
